@@ -121,11 +121,7 @@ pub mod channel {
     pub fn reset() {
         unsafe {
             N_CHANNELS = 0;
-            let mut i = 0;
-            while i < MAX_CHANNELS {
-                GHOSTS[i] = GHOST0;
-                i += 1;
-            }
+            GHOSTS = [GHOST0; MAX_CHANNELS];
         }
     }
 
